@@ -14,26 +14,20 @@ Theorem varoffset_rowmajor : forall m c, length c = length (m_shape m) ->
 Proof. exact varoffset_rowmajor_lemma. Qed.
 Print Assumptions varoffset_rowmajor.
 
-(** NCvario's decomposition into maximal contiguous runs.  For every rank and shape [pre ++ dk :: post], every
-    start/edges whose trailing dimensions [post] are taken whole (start 0, edge = extent -- the situation in
-    which NCvcmaxcontig returns the pointer to dimension k = length pre) and ANY start sk / edge ek at dimension
-    k and ANY leading start/edges: issuing, at every position p of the ripple counter over the leading
-    dimensions, one transfer of ek * prod post elements at p ++ [sk; 0..0] touches exactly the linear indices
-    of the slab's cells, in row-major order.  (Offsets are m_esz times these indices by varoffset_rowmajor.)
-    PARTIAL: the full statement "for all in-range start/edges, vario_plan m start edges = Some (ps, n) ->
-    flat_map (block m n) ps = map (varoffset m) (slab_cells start (ones start) edges)" additionally needs the
-    lemma  vcmaxcontig m start edges = Some k -> (forall i > k, edges_i = shape_i /\ start_i = 0)
-    (from maxcontig_bad_spec / maxcontig_break_spec, proved below as kernels, by induction over the reversed
-    dimension list); it is exercised by the examples below and by the exact transfer-log correspondence. *)
-Theorem vario_plan_correct_partial : forall pre post dk spre sk epre ek,
-  length spre = length pre -> length epre = length pre ->
-  Forall (fun d => 0 <= d) post -> 0 <= ek ->
-  flat_map (fun p => zrange (lin (pre ++ dk :: post) (p ++ sk :: zeros post)) 1 (Z.to_nat (ek * prod post)))
-           (odometer spre epre)
-  = map (lin (pre ++ dk :: post))
-        (slab_cells (spre ++ sk :: zeros post) (ones (spre ++ sk :: zeros post)) (epre ++ ek :: post)).
-Proof. exact vario_blocks_rowmajor_lemma. Qed.
-Print Assumptions vario_plan_correct_partial.
+(** NCvario's decomposition into maximal contiguous runs, at full strength.  For every variable (fixed-size of
+    rank >= 1, or record variable of rank >= 2; the 1-d record variable goes through NCsimplerecio), every
+    non-negative start and EVERY edge vector that NCvcmaxcontig (with its early break) accepts: the element
+    offsets of the (offset, count) transfers issued by the ripple counter, concatenated in issue order, are
+    exactly the offsets of the slab's cells in row-major order.  The proof derives from the regenerated tests
+    that vcmaxcontig = Some k forces the dimensions after k to be taken whole (vcmaxcontig_sound). *)
+Theorem vario_plan_correct : forall m start edges ps n,
+  length start = length (m_shape m) -> length edges = length (m_shape m) ->
+  ((if is_recvar m then 1 else 0) < length (m_shape m))%nat ->
+  Forall (fun o => 0 <= o) start -> Forall (fun d => 0 <= d) (m_shape m) ->
+  vario_plan m start edges = Some (ps, n) ->
+  flat_map (block m n) ps = map (varoffset m) (slab_cells start (ones start) edges).
+Proof. exact vario_plan_correct_lemma. Qed.
+Print Assumptions vario_plan_correct.
 
 (** NCvcmaxcontig's two tests and NCcoordck's bound test, as regenerated from putget.c, mean what the
     decomposition needs: an edge is accepted iff 0 <= edge <= shape - origin, the scan stops at the first
@@ -54,35 +48,69 @@ Theorem genio_plan_correct : forall start count stride,
 Proof. exact genio_positions. Qed.
 Print Assumptions genio_plan_correct.
 
-(** Out-of-range requests.  PARTIAL: proved are the validation kernels -- SDreaddata's stride check rejects
-    exactly the requests whose last index reaches the extent, before any transfer; NCcoordck accepts a
-    position iff every coordinate lies inside the shape (every transfer of vario_loop is preceded by
-    coordck at its position).  Missing for the full statement ("every request with some
-    start + (count-1)*stride >= extent returns FAIL and all transfers issued before lie inside the requested
-    region"): the induction over vario_loop / genio_loop combining these kernels. *)
+(** Out-of-range requests on a fixed-size dataset, model level, for ALL ranks >= 1, shapes and requests, in exactly
+    the terms of the specification (S returns RFail iff counts, strides >= 1 and [all4 dim_in start stride count shape]
+    is false): SDreaddata and SDwritedata, with stride NULL, all-ones or any strides >= 1, return FAIL whenever some
+    start_i < 0 or start_i + (count_i - 1) * stride_i >= extent_i.  The proof follows the code: SDreaddata's stride
+    check, else NCgenio's odometer (genio_loop induction: every visited position is an NCvario call), else inside
+    NCvario: NCcoordck rejects the start, or NCvcmaxcontig rejects an edge, or -- NCvcmaxcontig having stopped
+    validating at the first short edge -- the ripple counter reaches a position NCcoordck rejects (vario_loop
+    induction, vcmaxcontig_sound, oob_bad_position / strided_oob_cell).
+    PARTIAL -- missing: (a) the clause "no cell outside the requested region is modified" as a theorem (by
+    construction vario_loop transfers only blocks p ++ [sk..sk+ek) x whole trailing dimensions at positions p that
+    NCcoordck accepted, which vario_plan_correct shows to be cells of the region; the partial write inside the
+    region is real, see ex_oob); (b) record variables (dimension 0 is growable on write, bounded by numrecs on
+    read). *)
 Theorem out_of_range_rejected_partial :
+  (forall m us start stride count,
+     is_recvar m = false -> (0 < length (m_shape m))%nat ->
+     length start = length (m_shape m) -> length count = length (m_shape m) ->
+     (us = true -> length stride = length (m_shape m) /\ Forall (fun t => 1 <= t) stride) ->
+     Forall (fun c => 1 <= c) count ->
+     all4 dim_in start (if us then stride else ones start) count (m_shape m) = false ->
+     exists m' cells tr, sd_read m us start stride count = (m', MRead (-1) cells tr)) /\
+  (forall m us start stride count vals,
+     is_recvar m = false -> (0 < length (m_shape m))%nat ->
+     length start = length (m_shape m) -> length count = length (m_shape m) ->
+     (us = true -> length stride = length (m_shape m) /\ Forall (fun t => 1 <= t) stride) ->
+     Forall (fun c => 1 <= c) count ->
+     all4 dim_in start (if us then stride else ones start) count (m_shape m) = false ->
+     exists m' tr, sd_write m us start stride count vals = (m', MRet (-1) tr)) /\
+  (* strided reads reaching the extent are rejected before any transfer, dataset untouched *)
+  (forall m start stride count,
+     is_recvar m = false -> (0 < length (m_shape m))%nat ->
+     length start = length (m_shape m) -> length stride = length (m_shape m) -> length count = length (m_shape m) ->
+     all4 reach_in start stride count (m_shape m) = false ->
+     sd_read m true start stride count = (m, MRead (-1) [] [])) /\
+  (* what the regenerated tests mean *)
   (forall t c d s, truth (sdread_stride_bad0 t c d s) = (d <=? reach s t c)) /\
   (forall t c d s, truth (sdread_stride_badi t c d s) = (d <=? reach s t c)) /\
   (forall c shape, length c = length shape ->
-     any2 coordck_bad c shape = negb (all3 (fun x d _ => (0 <=? x) && (x <? d)) c shape c)) /\
-  (forall m start stride count, is_recvar m = false -> (0 < length (m_shape m))%nat ->
-     (hd 0 (m_shape m) <=? reach (hd 0 start) (hd 1 stride) (hd 1 count)) = true ->
-     sd_read m true start stride count = (m, MRead (-1) [] [])).
+     any2 coordck_bad c shape = negb (all3 (fun x d _ => (0 <=? x) && (x <? d)) c shape c)).
 Proof.
-  split. exact stride_check_spec0. split. exact stride_check_speci. split. exact any2_coordck.
-  exact sd_read_stride_rejected.
+  split. exact sd_read_rejected. split. exact sd_write_rejected. split. exact sd_read_strided_rejected.
+  split. exact stride_check_spec0. split. exact stride_check_speci. exact any2_coordck.
 Qed.
 Print Assumptions out_of_range_rejected_partial.
 
-(** First write to a new fixed-size dataset, fill mode on (hdf_xdr_NCvdata with an empty element): for every
-    transfer position w and length count inside the variable of L elements, afterwards the element has its
-    full length and every cell outside the transfer holds the fill value (user-set or default). *)
+(** First write to a new fixed-size dataset, fill mode on, through the code's own loops (hdf_xdr_NCvdata with an
+    empty element): the leading and trailing fill values are written by the do/while loops whose body updates
+    ("buf_size -= chunk_size; chunk_size = MIN(chunk_size, buf_size)", first piece MIN(buf_size, MAX_SIZE),
+    test buf_size > 0) are regenerated IN SOURCE ORDER from putget.c.  For EVERY transfer position w and length
+    count inside a variable of L elements (any byte count, below or above MAX_SIZE): the pieces are at most
+    MAX_SIZE bytes and add up to exactly the lead-in w*esz resp. the remainder, the data transfer is issued at
+    byte w*esz (no seek follows the leading fill, so this is where the loop must leave the position), afterwards
+    the element has its full length and every cell outside the transfer holds the fill value. *)
 Theorem first_write_fills : forall m w L count vals,
   m_store m = [] -> m_nofill m = false -> 0 < m_esz m ->
   0 <= w -> 0 <= count -> w + count <= L -> var_len m = L * m_esz m ->
   length vals = Z.to_nat count ->
-  exists m' tr,
-    xdr_vdata m true (w * m_esz m) count vals = Some (m', tr, []) /\
+  exists m' lc tc,
+    xdr_vdata m true (w * m_esz m) count vals =
+      Some (m', chunk_transfers 0 lc ++ [TWrite (w * m_esz m) (count * m_esz m)] ++
+                chunk_transfers (w * m_esz m + count * m_esz m) tc, []) /\
+    sumZ lc = w * m_esz m /\ sumZ tc = (L - w - count) * m_esz m /\
+    Forall (fun c => 0 < c <= MAX_SIZE) (lc ++ tc) /\
     m_store m' = repeat (Val (fill_of m)) (Z.to_nat w) ++ vals ++
                  repeat (Val (fill_of m)) (Z.to_nat (L - w - count)) /\
     Z.of_nat (length (m_store m')) * m_esz m = var_len m.
@@ -139,6 +167,12 @@ Example ex_first_write :
           [TWrite 0 12; TWrite 12 8; TWrite 20 4], []).
 Proof. vm_compute. split; reflexivity. Qed.
 
+(** the leading fill of 2,300,123 bytes is written as 1,000,000 + 1,000,000 + 300,123 *)
+Example ex_chunks :
+  fill_chunks vdata_lead_loop_step vdata_lead_loop_more (chunk_fuel 2300123) 2300123 (vdata_lead_loop_init 2300123)
+  = Some [1000000; 1000000; 300123].
+Proof. vm_compute. reflexivity. Qed.
+
 (** growth: numrecs 1 -> write positioned at record 3 of an (unlimited x 2) uint8 dataset *)
 Example ex_growth :
   let m := mkM [0; 2] 1 1 None 129 false [Val 1; Val 2] in
@@ -147,6 +181,25 @@ Example ex_growth :
     Some (mkM [0; 2] 1 4 None 129 false [Val 1; Val 2; Val 129; Val 129; Val 129; Val 129; Val 129; Val 129],
           [TWrite 2 2; TWrite 4 2; TWrite 6 2]).
 Proof. vm_compute. repeat split; reflexivity. Qed.
+
+(** hypotheses of out_of_range_rejected_partial (1): 3x4 dataset, request rows 1..3 (one too many) x columns 1..2.
+    NCvcmaxcontig validates only the last dimension (short edge -> break); rows 1 and 2 are transferred (after the
+    first-write fill), row 3 is rejected by NCcoordck: FAIL with a partial write inside the requested region *)
+Example ex_oob :
+  all4 dim_in [1; 1] (ones [1; 1]) [3; 2] [3; 4] = false /\
+  Forall (fun c => 1 <= c) [3; 2] /\
+  fst (vario true [1; 1] [3; 2] (mkAcc (m_init [3; 4] false DFNT_UINT8) [] [] (map Val [1;2;3;4;5;6]))) = false /\
+  acc_tr (snd (vario true [1; 1] [3; 2] (mkAcc (m_init [3; 4] false DFNT_UINT8) [] [] (map Val [1;2;3;4;5;6]))))
+    = [TWrite 0 5; TWrite 5 2; TWrite 7 5; TWrite 9 2].
+Proof. vm_compute. repeat split; auto. repeat constructor; discriminate. Qed.
+
+(** a strided write reaching outside: 3x4 dataset, start (0,1) stride (2,2) count (2,2): column 1+2 = 3 ok,
+    count (2,3) reaches column 5 *)
+Example ex_oob_strided :
+  all4 dim_in [0; 1] [2; 2] [2; 3] [3; 4] = false /\
+  snd (sd_write (m_init [3; 4] false DFNT_UINT8) true [0; 1] [2; 2] [2; 3] [1;2;3;4;5;6]) =
+    MRet (-1) [TWrite 0 1; TWrite 1 1; TWrite 2 10; TWrite 3 1].
+Proof. vm_compute. split; reflexivity. Qed.
 
 (** the whole model and the specification on one history: strided write, out-of-range read, full read *)
 Example ex_history :
